@@ -1068,8 +1068,10 @@ Record Inv (T : tables) (s : state) : Prop := mkInv {
   iv_fixed : fixed_ok s
 }.
 
-(** the tables of the writer: lower-case initial defaults, each once; an extension has one
-    listed content type, except bin; no part the operations create is typed like a bin default *)
+(** the tables of the writer: lower-case initial defaults, each once; two content types that
+    both earn a Default for one extension are equal (since repair d5752757 a Default stands
+    only for an extension the table maps to a single type, so this holds of every table);
+    no part the operations create is typed like a bin default *)
 Record tables_ok (T : tables) : Prop := mkTok {
   tk_env : Opc.env_ok (tenv T);
   tk_fun : forall e c1 c2, Opc.in_table (t_def T) e c1 = true -> Opc.in_table (t_def T) e c2 = true ->
@@ -1216,6 +1218,21 @@ Definition invb (T : tables) (s : state) : bool :=
 Definition tables_okb (T : tables) : bool :=
   Opc.nodupb (map fst (t_init T))
   && forallb (fun kv => str_eqb (Opc.lower (fst kv)) (fst kv)) (t_init T)
-  && forallb (fun a => forallb (fun b =>
-       negb (str_eqb (fst a) (fst b)) || str_eqb (snd a) (snd b) || str_eqb (fst a) s_bin) (t_def T)) (t_def T)
   && forallb (fun c => negb (Opc.in_table (t_def T) s_bin c)) new_part_cts.
+
+(** ---- re-opening, structurally: what a loader that resolves each internal Target against
+    the base URI of its source and looks the name up among the members (the loader of C01
+    does: PackURI.from_rel_ref, then the parts dict) makes of one written relationship ---- *)
+Definition reload_rel (ph : physpkg) (src : str) (r : Opc.rel) : option (str * str * tgt) :=
+  match Opc.r_mode r with
+  | Opc.MExt => Some (Opc.r_id r, Opc.r_type r, TExt (Opc.r_target r))
+  | _ => match from_rel_ref (baseURI src) (Opc.r_target r) with
+         | Ok n => match find_member ph n with
+                   | Some m => Some (Opc.r_id r, Opc.r_type r, TInt (pm_pid m))
+                   | None => None                       (* dangling: the loader drops it *)
+                   end
+         | Err _ => None
+         end
+  end.
+
+Definition mem_graph (r : relr) : option (str * str * tgt) := Some (rr_id r, rr_type r, rr_tgt r).
